@@ -65,6 +65,7 @@ def case_strategy(draw):
                 seed=draw(st.integers(0, 10 ** 6)),
                 # stacked exposures on one grid sharing a mask that leaves one (or two) good wavelengths between two runs of two bad pixels
                 negate=draw(st.sampled_from([False, False, True])),
+                layout=draw(st.sampled_from(['C', 'F', 'T'])),
                 iso=(draw(st.sampled_from([None, None, [draw(st.integers(20, n - 20)), draw(st.sampled_from([1, 2]))]])) if nexp >= 2 else None))
 
 
@@ -186,6 +187,17 @@ def body(case):
             sel = a_ > 0
             check(bool(np.allclose(fa[sel], fb[sel], rtol=1e-7, atol=1e-9 * max(1e-300, float(np.abs(fa[sel]).max()) if sel.any() else 1.0))), 'output-grid-listed-in-reverse-gives-other-flux')
         note_label('reversed-grid')
+    if case['nexp'] > 1 and case.get('layout', 'C') != 'C':
+        # the same stack held in another memory layout (Fortran order; the transposed view of an (npix, nexp) array as FITS / IDL
+        # tables deliver it) is the same stack
+        mk = np.asfortranarray if case['layout'] == 'F' else (lambda a: np.ascontiguousarray(a.T).T)
+        lf, li = call(combine1fiber, mk(ll), mk(fl), nl.copy(), objivar=mk(iv), **kwargs)
+        with judge('layout'):
+            a_, b_ = np.asarray(ni, dtype='f8'), np.asarray(li, dtype='f8')
+            fa, fb = np.asarray(nf, dtype='f8'), np.asarray(lf, dtype='f8')
+            check(a_.shape == b_.shape and bool(np.array_equal(a_, b_, equal_nan=True)) and bool(np.array_equal(fa, fb, equal_nan=True)), 'memory-layout-of-the-stack-changes-the-result',
+                  lambda: dict(layout=case['layout'], max_flux_diff=float(np.nanmax(np.abs(fa - fb))) if fa.shape == fb.shape else None))
+        note_label('layout:' + case['layout'])
     with judge('basic'):
         nf = np.asarray(nf, dtype='f8')
         ni = np.asarray(ni, dtype='f8')
@@ -342,7 +354,14 @@ def prep_case(draw):
     loglam2d = draw(st.booleans())
     # the grid can only be derived from a shared 1-D loglam (dloglam = loglam[1] - loglam[0]); in-repo callers always pass newloglam with 2-D loglam
     given = True if loglam2d else draw(st.booleans())
-    return dict(nobj=nobj, n=n, c0=c0, c1=c1, z=[draw(st.sampled_from([0.1, 0.05, 0.0, 0.3, 0.17, 0.01, -0.0012, -0.01])) for _ in range(nobj)],
+    z = [draw(st.sampled_from([0.1, 0.05, 0.0, 0.3, 0.17, 0.01, -0.0012, -0.01])) for _ in range(nobj)]
+    zmode = draw(st.sampled_from(['each', 'each', 'equal', 'none']))
+    if zmode == 'equal':
+        z = [z[0]] * nobj          # repeated spectra of one object / objects at one redshift
+    elif zmode == 'none':
+        z = [0.0] * nobj           # zfit left out: no shift
+    return dict(nobj=nobj, n=n, c0=c0, c1=c1, z=z, zmode=zmode,
+                rowshift=[0] + [draw(st.sampled_from([0, 7, 25, 40, 13])) for _ in range(nobj - 1)] if loglam2d else [0] * nobj,
                 feature=[draw(st.integers(60, n - 60)) + 0.5 * draw(uf) for _ in range(nobj)], width=draw(st.sampled_from([2.0, 3.0])),
                 loglam2d=loglam2d, given_grid=given, aesthetics=draw(st.sampled_from(['mean', 'traditional'])))
 
@@ -356,21 +375,23 @@ def prep_body(case):
     for j in range(nobj):
         flux[j] = 1.0 + 10.0 * np.exp(-0.5 * ((k - case['feature'][j]) / case['width']) ** 2)
     ivar = np.full((nobj, n), 100.0)
-    loglam = np.tile(ll, (nobj, 1)) if case['loglam2d'] else ll
+    rs = case.get('rowshift', [0] * nobj)
+    loglam = np.array([c0 + c1 * (k + rs[j]) for j in range(nobj)]) if case['loglam2d'] else ll      # one wavelength solution per object, starting elsewhere
     z = np.array(case['z'], dtype='f8')
+    zkw = {} if case.get('zmode') == 'none' else dict(zfit=z.copy())
     if case['given_grid']:
         lo = c0 - math.log10(1.3) - 5 * c1
-        newll = lo + c1 * np.arange(int((c0 + c1 * n - lo) / c1) + 5, dtype='f8')
-        out = call(preprocess_spectra, flux.copy(), ivar.copy(), loglam=loglam.copy(), zfit=z.copy(), newloglam=newll, aesthetics=case['aesthetics'])
+        newll = lo + c1 * np.arange(int((c0 + c1 * n - lo) / c1) + 90, dtype="f8")
+        out = call(preprocess_spectra, flux.copy(), ivar.copy(), loglam=loglam.copy(), newloglam=newll, aesthetics=case['aesthetics'], **zkw)
     else:
-        out = call(preprocess_spectra, flux.copy(), ivar.copy(), loglam=loglam.copy(), zfit=z.copy(), aesthetics=case['aesthetics'])
+        out = call(preprocess_spectra, flux.copy(), ivar.copy(), loglam=loglam.copy(), aesthetics=case['aesthetics'], **zkw)
     with judge('preprocess'):
         nf, ni, nll = [np.asarray(a, dtype='f8') for a in out]
         check(nf.shape == (nobj, len(nll)) and ni.shape == nf.shape, 'preprocess:shapes', lambda: dict(flux=nf.shape, ivar=ni.shape, grid=nll.shape))
         check(bool(np.all(np.isfinite(nf)) and np.all(np.isfinite(ni)) and np.all(ni >= 0)), 'preprocess:non-finite-or-negative')
         d = nll[1] - nll[0]
         for j in range(nobj):
-            L = c0 + c1 * case['feature'][j]
+            L = c0 + c1 * (case['feature'][j] + rs[j])
             want = L - math.log10(1 + z[j])
             good = ni[j] > 0
             w = np.where(good, np.clip(nf[j] - 1.0, 0, None), 0.0)
@@ -379,13 +400,16 @@ def prep_body(case):
             check(abs(cen - want) <= d, 'preprocess:feature-not-at-L-minus-log10(1+z)',
                   lambda: dict(obj=j, z=float(z[j]), got=float(cen), want=float(want), off_pixels=float((cen - want) / d)))
             # inverse variance is zero outside the de-redshifted range of the data
-            lo_, hi_ = ll[0] - math.log10(1 + z[j]), ll[-1] - math.log10(1 + z[j])
+            lo_, hi_ = ll[0] + c1 * rs[j] - math.log10(1 + z[j]), ll[-1] + c1 * rs[j] - math.log10(1 + z[j])
             outside = (nll < lo_ - 1e-12) | (nll > hi_ + 1e-12)
             check(not (ni[j][outside] != 0).any(), 'preprocess:ivar-nonzero-outside-shifted-range', lambda: dict(obj=j))
 
 
 def prep_classify(case):
     out = ['nobj:%d' % case['nobj'], '2d-loglam' if case['loglam2d'] else 'shared-1d-loglam', 'grid-given' if case['given_grid'] else 'grid-derived']
+    out.append('z:' + case.get('zmode', 'each'))
+    if len(set(case.get('rowshift', [0]))) > 1:
+        out.append('rows-start-at-different-wavelengths')
     if any(zz > 0 for zz in case['z'][:-1]):
         out.append('earlier-object-redshifted')
     return out
